@@ -329,15 +329,15 @@ func VerifNew[K comparable, V any](o *Options[K, V]) (*Cache[K, V], error) {
 // VerifSketch wraps the private count-min sketch.
 type VerifSketch struct{ s *sketch[int] }
 
-func VerifNewSketch() *VerifSketch                { return &VerifSketch{s: newSketch[int]()} }
-func (v *VerifSketch) EnsureCapacity(c uint64)    { v.s.ensureCapacity(c) }
-func (v *VerifSketch) Increment(k int)            { v.s.increment(k) }
-func (v *VerifSketch) Frequency(k int) uint64     { return v.s.frequency(k) }
-func (v *VerifSketch) Reset()                     { v.s.reset() }
-func (v *VerifSketch) Size() uint64               { return v.s.size }
-func (v *VerifSketch) SampleSize() uint64         { return v.s.sampleSize }
-func (v *VerifSketch) TableLen() int              { return len(v.s.table) }
-func (v *VerifSketch) NotInitialized() bool       { return v.s.isNotInitialized() }
+func VerifNewSketch() *VerifSketch             { return &VerifSketch{s: newSketch[int]()} }
+func (v *VerifSketch) EnsureCapacity(c uint64) { v.s.ensureCapacity(c) }
+func (v *VerifSketch) Increment(k int)         { v.s.increment(k) }
+func (v *VerifSketch) Frequency(k int) uint64  { return v.s.frequency(k) }
+func (v *VerifSketch) Reset()                  { v.s.reset() }
+func (v *VerifSketch) Size() uint64            { return v.s.size }
+func (v *VerifSketch) SampleSize() uint64      { return v.s.sampleSize }
+func (v *VerifSketch) TableLen() int           { return len(v.s.table) }
+func (v *VerifSketch) NotInitialized() bool    { return v.s.isNotInitialized() }
 
 // VerifSketchPositions returns the block and the four (slot, counter index) pairs a raw hash maps to.
 func VerifSketchPositions(raw uint64, tableLen int) (block uint64, pos [4][2]uint64) {
